@@ -569,6 +569,30 @@ fn compile_run_k(_case: &Value, inputs: &Value) -> Value {
     json!({"compiled": tree_to_json(&a, prog), "result": result})
 }
 
+// classic compiler (no dialect sigil) through the library entry point, then run
+fn classic_compile_run_k(_case: &Value, inputs: &Value) -> Value {
+    use chialisp::classic::clvm_tools::clvmc::compile_clvm_text;
+    use chialisp::classic::clvm_tools::stages::stage_0::TRunProgram;
+    use chialisp::compiler::compiler::DefaultCompilerOpts;
+    use chialisp::compiler::comptypes::CompilerOpts;
+    use std::collections::HashMap;
+    let mut a = Allocator::new();
+    let opts: Rc<dyn CompilerOpts> = Rc::new(DefaultCompilerOpts::new("*t*"));
+    let mut syms = HashMap::new();
+    let src = inputs["source"].as_str().unwrap();
+    let prog = match compile_clvm_text(&mut a, opts, &mut syms, src, "*t*", true) {
+        Ok(p) => p,
+        Err(e) => return json!({"compile_err": format!("{:?}", e)}),
+    };
+    let args = json_to_tree(&mut a, &inputs["args"]);
+    let runner = DefaultProgramRunner::new();
+    let result = match runner.run_program(&mut a, prog, args, None) {
+        Ok(r) => json!({"ok": tree_to_json(&a, r.1)}),
+        Err(_) => json!({"err": true}),
+    };
+    json!({"compiled": tree_to_json(&a, prog), "result": result})
+}
+
 // assemble(text) -> tree (used to evaluate constant patterns natively)
 fn assemble_k(_case: &Value, inputs: &Value) -> Value {
     let mut a = Allocator::new();
@@ -583,6 +607,7 @@ pub fn dispatch(kernel: &str, case: &Value, inputs: &Value) -> Value {
         "assemble" => assemble_k(case, inputs),
         "int_from_bytes" => int_from_bytes_k(case, inputs),
         "decode" => decode_k(case, inputs),
+        "classic_compile_run" => classic_compile_run_k(case, inputs),
         "name_lookup" => compile_run_k(case, inputs),
         "compile_run" => compile_run_k(case, inputs),
         "read_new_file" => read_new_file_k(case, inputs),
